@@ -15,14 +15,22 @@ Record protocol of the produced program (stdout, one write(2) per line, hex with
     w <sid>              write site stored its two markers through the address printed just before
     END
 argv[1..] of the program are instance indices (hex) to skip at run time (crash isolation).
+
+Axis ALIASES (kinds `adat`, `afn`): one instance is ONE object / function defined in the definer under
+2-3 names `<kind>_<k>_n<j>[tail]` (binding pattern such as SS, SW, WS, SSW: S = STB_GLOBAL, W = STB_WEAK, in
+symbol order; st_size equal for all names or different per name). A use is written `<way>@<j>`: the
+module takes the address through name j in that way; every (module, name, way) is one site.
 """
 import itertools
 from collections import namedtuple
 
-KINDS = ["fn", "dat", "ifn", "tls", "pfn", "pdat"]
-KCLASS = {"fn": "func", "ifn": "func", "pfn": "func", "dat": "data", "pdat": "data", "tls": "tls"}
+KINDS = ["fn", "dat", "ifn", "tls", "pfn", "pdat", "adat", "afn"]
+BASE_KINDS = KINDS[:6]
+ALIAS_KINDS = {"adat": "dat", "afn": "fn"}        # alias kind -> the single-name kind it generalises
+KCLASS = {"fn": "func", "ifn": "func", "pfn": "func", "dat": "data", "pdat": "data", "tls": "tls",
+          "adat": "data", "afn": "func"}
 KNAME = {"fn": "function", "dat": "data", "ifn": "ifunc", "tls": "tls", "pfn": "protected-function",
-         "pdat": "protected-data"}
+         "pdat": "protected-data", "adat": "data", "afn": "function"}
 MODULES = ["E", "A", "B"]
 NOTE = '.section .note.GNU-stack,"",@progbits\n'
 
@@ -50,16 +58,44 @@ CALL_CODE = {
 DIRECT = ("dpc", "d32", "d32s", "d64", "le")
 WRITER_TAG = {"E": 0xE1, "A": 0xA1, "B": 0xB1}
 
-Inst = namedtuple("Inst", "idx kind k uses")          # uses: {"E": tuple(ways), "A": ..., "B": ...}
-Site = namedtuple("Site", "sid mod idx way role")     # role: obs | wr
+# uses: {"E": tuple(ways), "A": ..., "B": ...}; alias instances: names = binding letter per name
+# ("S", "S", "W"), sizes = st_size per name, uses hold "<way>@<name index>"
+Inst = namedtuple("Inst", "idx kind k uses names sizes", defaults=((), ()))
+Site = namedtuple("Site", "sid mod idx way role nm", defaults=(0,))     # role: obs | wr; nm: name index
 
 
-def sym(inst):
+def split_use(u):
+    """"got@1" -> ("got", 1); "got" -> ("got", 0)"""
+    way, _, j = u.partition("@")
+    return way, int(j or 0)
+
+
+def use_ways(uses):
+    return [split_use(u)[0] for u in uses]
+
+
+# The order in which a library's .dynsym lists the names of one object is the order of their hash buckets.
+# Names that differ in the last character only have neighbouring hashes (n0 < n1 < n2); a tail
+# character chosen per k % 3 gives the orders n0<n1<n2, n1<n2<n0 and n0<n2<n1 as well.
+ALIAS_TAILS = (("", "", ""), ("z", "P", "0"), ("a", "z", "A"))
+
+
+def sym(inst, nm=0):
+    if inst.names:
+        return f"{inst.kind}_{inst.k}_n{nm}{ALIAS_TAILS[inst.k % 3][nm]}"
     return f"{inst.kind}_{inst.k}"
 
 
 def size_of(inst):
+    """Bytes every view may touch: the object's size; for aliases the smallest st_size of its names (a
+    copy relocation made for the shortest name copies no more than that)."""
+    if inst.sizes:
+        return min(inst.sizes)
     return 16 + 8 * (inst.k % 3)
+
+
+def full_size(inst):
+    return max(inst.sizes) if inst.sizes else size_of(inst)
 
 
 def markers(inst):
@@ -191,20 +227,92 @@ def build_instances(kinds, definer, ekind, variant, level):
     return insts
 
 
+# ------------------------------------------------------------------------------------------ aliases
+ALIAS_BINDINGS = {"core": ["SS", "SW", "WS", "SSW"], "full": ["SS", "SW", "WS", "WW", "SSW", "SWS", "WSS"]}
+
+
+def alias_sizes(k, nn, mode):
+    """st_size per name. 'same': one size; 'diff': every name another size (which name is the longest
+    rotates with k), all of them prefixes of the one object."""
+    full = 32 + 8 * (k % 3)
+    if mode == "same":
+        return (full,) * nn
+    return tuple(full - 8 * ((j + k // 3) % nn) for j in range(nn))
+
+
+def alias_use_triples(kind, definer, ekind, variant, nn, level, sizes_mode):
+    """The enumerated (uE, uA, uB) of one alias group with nn names.
+      E: every subset D of the names accessed directly (the form that makes a copy relocation / a
+         canonical PLT entry: the direct core form of the single-name kind, where one exists) x one further
+         indirect use {none, GOT through name j, `.quad` of name j};
+      A: none | one name through the GOT | one name through `.quad` | every name through the GOT
+         (| `lea` of one name where A binds locally);
+      B: none | one name through the GOT | every name through the GOT.
+    Functions: B is {none, all}. core level (quick tier) thins: 3 names / functions: E's indirect use
+    is GOT only; functions: A has no `.quad`; different sizes: A and B are {none, all}."""
+    base = ALIAS_KINDS[kind]
+    cls = KCLASS[kind]
+    core = core_ways(base, definer, ekind, variant)
+    names = list(range(nn))
+    edirect = [w for w in core["E"] if w in DIRECT][:1]
+    thin = level == "core"
+    eind_ways = [w for w in ("got", "data") if w in core["E"]]
+    if thin and (nn >= 3 or cls == "func"):
+        eind_ways = eind_ways[:1]
+    e_opts = []
+    for d in (_subsets(names) if edirect else [()]):
+        for ind in [None] + [(w, j) for w in eind_ways for j in names]:
+            u = tuple(f"{edirect[0]}@{j}" for j in d)
+            if ind:
+                u += (f"{ind[0]}@{ind[1]}",)
+            e_opts.append(u)
+    allgot = tuple(f"got@{j}" for j in names)
+    a_ways = ["got"] if thin and cls == "func" else ["got", "data"]
+    if "dpc" in core["A"]:
+        a_ways = ["dpc"] + a_ways
+    a_opts = [()] + [(f"{w}@{j}",) for w in a_ways for j in names] + [allgot]
+    b_opts = [()] + [(f"got@{j}",) for j in names] + [allgot]
+    if cls == "func":
+        b_opts = [(), allgot]
+    if thin and sizes_mode == "diff":
+        a_opts, b_opts = [(), allgot], [(), allgot]
+    out = []
+    for t in itertools.product(e_opts, a_opts, b_opts):
+        if sum(len(u) for u in t) >= 2:
+            out.append(t)
+    return out
+
+
+def build_alias_instances(kinds, definer, ekind, variant, level):
+    """All alias groups of one member: kind x binding pattern x {same, different} st_size (functions:
+    same only) x use triple."""
+    insts = []
+    for kind in kinds:
+        k = 0
+        for pat in ALIAS_BINDINGS[level]:
+            for mode in (("same", "diff") if KCLASS[kind] == "data" else ("same",)):
+                for ue, ua, ub in alias_use_triples(kind, definer, ekind, variant, len(pat), level, mode):
+                    insts.append(Inst(len(insts), kind, k, {"E": ue, "A": ua, "B": ub}, tuple(pat),
+                                      alias_sizes(k, len(pat), mode)))
+                    k += 1
+    return insts
+
+
 def build_sites(insts):
     """Deterministic site numbering: observation sites of every module, then write sites."""
     sites = []
     for m in MODULES:
         for i in insts:
-            for w in i.uses[m]:
-                sites.append(Site(len(sites), m, i.idx, w, "obs"))
+            for u in i.uses[m]:
+                w, nm = split_use(u)
+                sites.append(Site(len(sites), m, i.idx, w, "obs", nm))
     for m in MODULES:
         for i in insts:
             if KCLASS[i.kind] == "func":
                 continue
-            ws = [w for w in i.uses[m] if is_addr(w)]
+            ws = [split_use(u) for u in i.uses[m] if is_addr(split_use(u)[0])]
             if ws:
-                sites.append(Site(len(sites), m, i.idx, ws[0], "wr"))
+                sites.append(Site(len(sites), m, i.idx, ws[0][0], "wr", ws[0][1]))
     return sites
 
 
@@ -290,7 +398,7 @@ ROUTINE_CLOSE = "  pop %r15\n  pop %r14\n  pop %r13\n  pop %r12\n  pop %rbx\n  r
 
 
 def _obs_code(m, inst, site):
-    s = sym(inst)
+    s = sym(inst, site.nm)
     cls = KCLASS[inst.kind]
     sz = size_of(inst)
     o = [f"  cmpb $0,{inst.idx}(%r15)\n  jne 7f\n"]
@@ -315,7 +423,7 @@ def _wr_code(m, inst, site):
     v0, v1 = written(m, inst)
     sz = size_of(inst)
     return (f"  cmpb $0,{inst.idx}(%r15)\n  jne 7f\n" +
-            ADDR_CODE[site.way].format(s=sym(inst), slot=f"slot{m}_{site.sid}") +
+            ADDR_CODE[site.way].format(s=sym(inst, site.nm), slot=f"slot{m}_{site.sid}") +
             f"  mov %rax,%rbx\n  mov %rax,%r12\n  mov $97,%edi\n  mov ${site.sid},%esi\n  mov $1,%edx\n"
             f"  call rt_rec_{m}\n  movabs ${v0:#x},%rcx\n  mov %rcx,(%rbx)\n  movabs ${v1:#x},%rcx\n"
             f"  mov %rcx,{sz - 8}(%rbx)\n  mov $119,%edi\n  mov ${site.sid},%esi\n  xor %edx,%edx\n"
@@ -328,7 +436,22 @@ def _defs(insts):
         s = sym(i)
         cls = KCLASS[i.kind]
         vis = f".protected {s}\n" if i.kind in ("pfn", "pdat") else ""
-        if i.kind == "ifn":
+        if i.names:
+            # one object / function, several names: labels at one address, in name order
+            typ = "@function" if cls == "func" else "@object"
+            decl = "".join(f"{'.globl' if b == 'S' else '.weak'} {sym(i, j)}\n.type {sym(i, j)},{typ}\n"
+                           for j, b in enumerate(i.names))
+            labels = "".join(f"{sym(i, j)}:\n" for j in range(len(i.names)))
+            if cls == "func":
+                text.append(decl + labels + f"  mov ${fn_id(i):#x},%eax\n  ret\n" +
+                            "".join(f".size {sym(i, j)},.-{sym(i, j)}\n" for j in range(len(i.names))))
+            else:
+                m0, m1 = markers(i)
+                body = [i.idx] * (full_size(i) // 8)
+                body[0], body[size_of(i) // 8 - 1] = m0, m1
+                data.append(decl + "".join(f".size {sym(i, j)},{sz}\n" for j, sz in enumerate(i.sizes)) +
+                            labels + "".join(f"  .quad {v:#x}\n" for v in body))
+        elif i.kind == "ifn":
             text.append(f".globl {s}\n.type {s},@gnu_indirect_function\n{s}:\n  lea impl_{s}(%rip),%rax\n  ret\n"
                         f".size {s},.-{s}\n.type impl_{s},@function\nimpl_{s}:\n  mov ${fn_id(i):#x},%eax\n  ret\n"
                         f".size impl_{s},.-impl_{s}\n")
@@ -361,7 +484,7 @@ def module_src(m, insts, sites, definer, ninst):
             continue
         i = by_idx[st.idx]
         if st.way == "data":
-            slots.append(f"slot{m}_{st.sid}:\n  .quad {sym(i)}\n")
+            slots.append(f"slot{m}_{st.sid}:\n  .quad {sym(i, st.nm)}\n")
         if st.role == "wr":
             wr.append(_wr_code(m, i, st))
         elif KCLASS[i.kind] == "func":
